@@ -1,7 +1,7 @@
 (* Glynn's formula as coded in fast_glynn_perm (Gray-code loop) equals the permanent:
    - the normalisation Qred used by the executable model is immaterial (all sizes);
-   - for symbolic matrices of size 1..4 the loop returns the permanent (by field);
-   - the plain Glynn sum of spec/PermS.v equals the permanent for sizes 1..4. *)
+   - for symbolic matrices of size 1..6 the loop returns the permanent (by field);
+   - the plain Glynn sum of spec/PermS.v equals the permanent for sizes 1..5. *)
 From Coq Require Import ZArith NArith QArith Qabs List Bool Arith Lia Setoid Morphisms.
 From Inf Require Import model.PermM spec.PermS proofs.PermSpecP.
 Import ListNotations.
@@ -115,85 +115,87 @@ Proof.
 Qed.
 
 (* ------------------------------------------------------------------ *)
-(* Symbolic sizes 1..4                                                  *)
+(* Symbolic sizes 1..6                                                  *)
 
 Ltac glynn_tac n :=
   intros; eapply (fast_glynn_from_plain _ _ n);
   [ cbv -[Qplus Qmult Qdiv Qopp Qinv Qminus inject_Z]; reflexivity
   | cbn -[Qplus Qmult Qdiv Qopp Qinv Qminus inject_Z]; unfold inject_Z; field ].
 
-Lemma fast_glynn_eq_perm_1 : forall a,
-  exists p, fast_glynn_perm [[a]] = Some p /\ p == perm 1 (of_lists [[a]]).
+Lemma fast_glynn_eq_perm_1 : forall x11,
+  exists p, fast_glynn_perm [[x11]] = Some p /\
+            p == perm 1 (of_lists [[x11]]).
 Proof. glynn_tac 1%nat. Qed.
 
-Lemma fast_glynn_eq_perm_2 : forall a b c d,
-  exists p, fast_glynn_perm [[a; b]; [c; d]] = Some p /\ p == perm 2 (of_lists [[a; b]; [c; d]]).
+Lemma fast_glynn_eq_perm_2 : forall x11 x12 x21 x22,
+  exists p, fast_glynn_perm [[x11; x12]; [x21; x22]] = Some p /\
+            p == perm 2 (of_lists [[x11; x12]; [x21; x22]]).
 Proof. glynn_tac 2%nat. Qed.
 
-Lemma fast_glynn_eq_perm_3 : forall a b c d e f g h i,
-  exists p, fast_glynn_perm [[a; b; c]; [d; e; f]; [g; h; i]] = Some p /\
-            p == perm 3 (of_lists [[a; b; c]; [d; e; f]; [g; h; i]]).
+Lemma fast_glynn_eq_perm_3 : forall x11 x12 x13 x21 x22 x23 x31 x32 x33,
+  exists p, fast_glynn_perm [[x11; x12; x13]; [x21; x22; x23]; [x31; x32; x33]] = Some p /\
+            p == perm 3 (of_lists [[x11; x12; x13]; [x21; x22; x23]; [x31; x32; x33]]).
 Proof. glynn_tac 3%nat. Qed.
 
-Lemma fast_glynn_eq_perm_4 : forall a11 a12 a13 a14 a21 a22 a23 a24 a31 a32 a33 a34 a41 a42 a43 a44,
-  exists p, fast_glynn_perm [[a11; a12; a13; a14]; [a21; a22; a23; a24];
-                             [a31; a32; a33; a34]; [a41; a42; a43; a44]] = Some p /\
-            p == perm 4 (of_lists [[a11; a12; a13; a14]; [a21; a22; a23; a24];
-                                   [a31; a32; a33; a34]; [a41; a42; a43; a44]]).
+Lemma fast_glynn_eq_perm_4 : forall x11 x12 x13 x14 x21 x22 x23 x24 x31 x32 x33 x34 x41 x42 x43 x44,
+  exists p, fast_glynn_perm [[x11; x12; x13; x14]; [x21; x22; x23; x24]; [x31; x32; x33; x34]; [x41; x42; x43; x44]] = Some p /\
+            p == perm 4 (of_lists [[x11; x12; x13; x14]; [x21; x22; x23; x24]; [x31; x32; x33; x34]; [x41; x42; x43; x44]]).
 Proof. glynn_tac 4%nat. Qed.
 
-(* every rational matrix of size n <= 4, given as a list of lists *)
+Lemma fast_glynn_eq_perm_5 : forall x11 x12 x13 x14 x15 x21 x22 x23 x24 x25 x31 x32 x33 x34 x35 x41 x42 x43 x44 x45 x51 x52 x53 x54 x55,
+  exists p, fast_glynn_perm [[x11; x12; x13; x14; x15]; [x21; x22; x23; x24; x25]; [x31; x32; x33; x34; x35]; [x41; x42; x43; x44; x45]; [x51; x52; x53; x54; x55]] = Some p /\
+            p == perm 5 (of_lists [[x11; x12; x13; x14; x15]; [x21; x22; x23; x24; x25]; [x31; x32; x33; x34; x35]; [x41; x42; x43; x44; x45]; [x51; x52; x53; x54; x55]]).
+Proof. glynn_tac 5%nat. Qed.
+
+Lemma fast_glynn_eq_perm_6 : forall x11 x12 x13 x14 x15 x16 x21 x22 x23 x24 x25 x26 x31 x32 x33 x34 x35 x36 x41 x42 x43 x44 x45 x46 x51 x52 x53 x54 x55 x56 x61 x62 x63 x64 x65 x66,
+  exists p, fast_glynn_perm [[x11; x12; x13; x14; x15; x16]; [x21; x22; x23; x24; x25; x26]; [x31; x32; x33; x34; x35; x36]; [x41; x42; x43; x44; x45; x46]; [x51; x52; x53; x54; x55; x56]; [x61; x62; x63; x64; x65; x66]] = Some p /\
+            p == perm 6 (of_lists [[x11; x12; x13; x14; x15; x16]; [x21; x22; x23; x24; x25; x26]; [x31; x32; x33; x34; x35; x36]; [x41; x42; x43; x44; x45; x46]; [x51; x52; x53; x54; x55; x56]; [x61; x62; x63; x64; x65; x66]]).
+Proof. glynn_tac 6%nat. Qed.
+
+(* every rational matrix of size n <= 6, given as a list of lists *)
 Definition square (n : nat) (M : matrix) : Prop := length M = n /\ Forall (fun r => length r = n) M.
 
-Theorem fast_glynn_eq_perm_le4 : forall n M, (1 <= n <= 4)%nat -> square n M ->
+Ltac destr_len :=
+  repeat match goal with
+  | H : length ?l = S _ |- _ =>
+      destruct l as [|? ?]; [discriminate H | cbn [length] in H; apply Nat.succ_inj in H]
+  | H : length ?l = O |- _ => destruct l as [|? ?]; [clear H | discriminate H]
+  | H : Forall _ (_ :: _) |- _ =>
+      let a := fresh "Ha" in let b := fresh "Hb" in
+      inversion H as [|? ? a b]; clear H; subst; cbn beta in a
+  | H : Forall _ [] |- _ => clear H
+  end.
+
+Theorem fast_glynn_eq_perm_le6 : forall n M, (1 <= n <= 6)%nat -> square n M ->
   exists p, fast_glynn_perm M = Some p /\ p == perm n (of_lists M).
 Proof.
   intros n M Hn [Hl Hr].
-  destruct n as [|[|[|[|[|n]]]]]; try lia.
-  - destruct M as [|r1 [|? ?]]; try discriminate.
-    inversion Hr as [|? ? H1 _]; subst. destruct r1 as [|a [|? ?]]; try discriminate.
-    apply fast_glynn_eq_perm_1.
-  - destruct M as [|r1 [|r2 [|? ?]]]; try discriminate.
-    inversion Hr as [|? ? H1 Hr']; subst. inversion Hr' as [|? ? H2 _]; subst.
-    destruct r1 as [|a [|b [|? ?]]]; try discriminate.
-    destruct r2 as [|c [|d [|? ?]]]; try discriminate.
-    apply fast_glynn_eq_perm_2.
-  - destruct M as [|r1 [|r2 [|r3 [|? ?]]]]; try discriminate.
-    inversion Hr as [|? ? H1 Hr1]; subst. inversion Hr1 as [|? ? H2 Hr2]; subst.
-    inversion Hr2 as [|? ? H3 _]; subst.
-    destruct r1 as [|a [|b [|c [|? ?]]]]; try discriminate.
-    destruct r2 as [|d [|e [|f [|? ?]]]]; try discriminate.
-    destruct r3 as [|g [|h [|i [|? ?]]]]; try discriminate.
-    apply fast_glynn_eq_perm_3.
-  - destruct M as [|r1 [|r2 [|r3 [|r4 [|? ?]]]]]; try discriminate.
-    inversion Hr as [|? ? H1 Hr1]; subst. inversion Hr1 as [|? ? H2 Hr2]; subst.
-    inversion Hr2 as [|? ? H3 Hr3]; subst. inversion Hr3 as [|? ? H4 _]; subst.
-    destruct r1 as [|a1 [|b1 [|c1 [|d1 [|? ?]]]]]; try discriminate.
-    destruct r2 as [|a2 [|b2 [|c2 [|d2 [|? ?]]]]]; try discriminate.
-    destruct r3 as [|a3 [|b3 [|c3 [|d3 [|? ?]]]]]; try discriminate.
-    destruct r4 as [|a4 [|b4 [|c4 [|d4 [|? ?]]]]]; try discriminate.
-    apply fast_glynn_eq_perm_4.
+  destruct n as [|[|[|[|[|[|[|n]]]]]]]; try lia; destr_len.
+  - apply fast_glynn_eq_perm_1.
+  - apply fast_glynn_eq_perm_2.
+  - apply fast_glynn_eq_perm_3.
+  - apply fast_glynn_eq_perm_4.
+  - apply fast_glynn_eq_perm_5.
+  - apply fast_glynn_eq_perm_6.
 Qed.
 
 (* the plain Glynn sum over sign vectors (spec/PermS.v) *)
 Ltac plain_tac :=
   intros M; cbn -[Qplus Qmult Qdiv Qopp Qinv Qminus inject_Z]; unfold minor, skip;
   cbn -[Qplus Qmult Qdiv Qopp Qinv Qminus inject_Z]; unfold inject_Z; field.
-Lemma glynn_plain_eq_perm_1 : forall M, glynn_plain 1 M == perm 1 M.
-Proof. plain_tac. Qed.
-Lemma glynn_plain_eq_perm_2 : forall M, glynn_plain 2 M == perm 2 M.
-Proof. plain_tac. Qed.
-Lemma glynn_plain_eq_perm_3 : forall M, glynn_plain 3 M == perm 3 M.
-Proof. plain_tac. Qed.
-Lemma glynn_plain_eq_perm_4 : forall M, glynn_plain 4 M == perm 4 M.
-Proof. plain_tac. Qed.
+Lemma glynn_plain_eq_perm_1 : forall M, glynn_plain 1 M == perm 1 M. Proof. plain_tac. Qed.
+Lemma glynn_plain_eq_perm_2 : forall M, glynn_plain 2 M == perm 2 M. Proof. plain_tac. Qed.
+Lemma glynn_plain_eq_perm_3 : forall M, glynn_plain 3 M == perm 3 M. Proof. plain_tac. Qed.
+Lemma glynn_plain_eq_perm_4 : forall M, glynn_plain 4 M == perm 4 M. Proof. plain_tac. Qed.
+Lemma glynn_plain_eq_perm_5 : forall M, glynn_plain 5 M == perm 5 M. Proof. Time plain_tac. Qed.
 
-Theorem glynn_plain_eq_perm_le4 : forall n M, (n <= 4)%nat -> glynn_plain n M == perm n M.
+Theorem glynn_plain_eq_perm_le5 : forall n M, (n <= 5)%nat -> glynn_plain n M == perm n M.
 Proof.
-  intros n M Hn. destruct n as [|[|[|[|[|n]]]]]; try lia.
+  intros n M Hn. destruct n as [|[|[|[|[|[|n]]]]]]; try lia.
   - reflexivity.
   - apply glynn_plain_eq_perm_1.
   - apply glynn_plain_eq_perm_2.
   - apply glynn_plain_eq_perm_3.
   - apply glynn_plain_eq_perm_4.
+  - apply glynn_plain_eq_perm_5.
 Qed.
